@@ -448,6 +448,7 @@ static size_t ZSTD_seekable_loadSeekTable(ZSTD_seekable* zs)
             entries[numFrames].cOffset = cOffset;
             entries[numFrames].dOffset = dOffset;
 
+            free(zs->seekTable.entries);   /* the table of a previous initialisation, if any */
             zs->seekTable.entries = entries;
             zs->seekTable.tableLen = numFrames;
             zs->seekTable.checksumFlag = checksumFlag;
@@ -475,6 +476,12 @@ size_t ZSTD_seekable_initFile(ZSTD_seekable* zs, FILE* src)
 size_t ZSTD_seekable_initAdvanced(ZSTD_seekable* zs, ZSTD_seekable_customFile src)
 {
     zs->src = src;
+
+    if (src.opaque != &zs->buffWrapper) {
+        /* the object can be initialised again : when this archive is not in memory,
+         * the size of a previous one that was must not limit its reads */
+        zs->buffWrapper = (buffWrapper_t){NULL, 0, 0};
+    }
 
     {   const size_t seekTableInit = ZSTD_seekable_loadSeekTable(zs);
         if (ZSTD_isError(seekTableInit)) return seekTableInit; }
